@@ -24,43 +24,7 @@ func runC18(c *Ctx) {
 	_, s := c.Std()
 
 	R.Rule("R-rcpts-lifecycle", "E1/E2", "Client.rcpts is appended only with the accepted recipient on Rcpt's success edge, and cleared on every path that starts a transaction (Mail) or completes one (dataCloser.Close)", 3)
-	for _, st := range c.Sites("st:Client.rcpts") {
-		_, _, v := storedField(st)
-		if isNilConst(v) {
-			continue
-		}
-		fn := funcName(st.Parent())
-		d := describe(v)
-		accepted := `^\(\*Client\)\.cmd\(param0,25,"%s",.*\)#2 == nil$`
-		if g := st.Parent(); fn != "(*Client).Rcpt" && !isExported(g) && g.Parent() == nil && d == "builtin:append(Client.rcpts,slice(alloc:varargs))" {
-			// an unexported helper that records its parameter: judged at its call sites
-			arg := describeVarargs(v.(*ssa.Call).Call.Args[1])
-			idx := -1
-			for i := range g.Params {
-				if arg == fmt.Sprintf("param%d", i) {
-					idx = i
-				}
-			}
-			callers := c.callersOf(g)
-			R.Ob(c.siteKey(st, "rcpts = append(rcpts, <helper parameter>)"), c.P.InstrPos(st), idx >= 0 && len(callers) > 0, "helper "+fn+" appends "+arg)
-			for _, cs := range callers {
-				cc := callCommon(cs)
-				okArg := cc != nil && idx >= 0 && idx < len(cc.Args) && describe(cc.Args[idx]) == "param1" && funcName(cs.Parent()) == "(*Client).Rcpt"
-				R.Ob(c.siteKey(cs, "helper records the accepted recipient"), c.P.InstrPos(cs), okArg, "recording helper called from "+funcName(cs.Parent())+" with a value that is not Rcpt's recipient")
-				c.obFactMatch("append only after the server accepted", cs, accepted, "recipient recorded although RCPT was not accepted")
-			}
-			continue
-		}
-		R.Ob(c.siteKey(st, "rcpts = append(rcpts, to)"), c.P.InstrPos(st), fn == "(*Client).Rcpt" && d == "builtin:append(Client.rcpts,slice(alloc:varargs))" && describeVarargs(v.(*ssa.Call).Call.Args[1]) == "param1", "rcpts becomes "+d+" in "+fn)
-		c.obFactMatch("append only after the server accepted", st, accepted, "recipient recorded although RCPT was not accepted")
-	}
-	if f := c.A.Func("(*Client).Rcpt"); f != nil {
-		// ... and EVERY accepted RCPT is recorded (the server answers once per accepted RCPT command, repeated addresses included)
-		for _, site := range s.Find(f, "ccmd") {
-			site := site
-			c.obFollowH("every accepted RCPT is recorded", f, func(in ssa.Instruction) bool { return in == site }, []string{"st:Client.rcpts"}, describe(site.(ssa.Value))+"#2 == nil")
-		}
-	}
+	ruleRcptsRecorded(c)
 	// the status callback belongs to the writer it was supplied for: it is stored into the dataCloser only from
 	// LMTPData's own parameter, never kept on the client
 	nCb := 0
@@ -320,5 +284,50 @@ func ruleLMTPLoopComplete(c *Ctx) {
 	}
 	if n == 0 {
 		R.Ob("(*dataCloser).Close/loop has an I/O-error return", c.P.Pos(f.Pos()), true, "")
+	}
+}
+
+// ruleRcptsRecorded (C18 R-rcpts-lifecycle, C16 R-recipients-as-accepted): the client's list of recipients — the
+// number of LMTP replies Close waits for, and the names it attributes them to — holds exactly the recipients the
+// server accepted: appended on the success edge of the RCPT command only, and on every such edge.
+func ruleRcptsRecorded(c *Ctx) {
+	R := c.R
+	_, s := c.Std()
+	for _, st := range c.Sites("st:Client.rcpts") {
+		_, _, v := storedField(st)
+		if isNilConst(v) {
+			continue
+		}
+		fn := funcName(st.Parent())
+		d := describe(v)
+		accepted := `^\(\*Client\)\.cmd\(param0,25,"%s",.*\)#2 == nil$`
+		if g := st.Parent(); fn != "(*Client).Rcpt" && !isExported(g) && g.Parent() == nil && d == "builtin:append(Client.rcpts,slice(alloc:varargs))" {
+			// an unexported helper that records its parameter: judged at its call sites
+			arg := describeVarargs(v.(*ssa.Call).Call.Args[1])
+			idx := -1
+			for i := range g.Params {
+				if arg == fmt.Sprintf("param%d", i) {
+					idx = i
+				}
+			}
+			callers := c.callersOf(g)
+			R.Ob(c.siteKey(st, "rcpts = append(rcpts, <helper parameter>)"), c.P.InstrPos(st), idx >= 0 && len(callers) > 0, "helper "+fn+" appends "+arg)
+			for _, cs := range callers {
+				cc := callCommon(cs)
+				okArg := cc != nil && idx >= 0 && idx < len(cc.Args) && describe(cc.Args[idx]) == "param1" && funcName(cs.Parent()) == "(*Client).Rcpt"
+				R.Ob(c.siteKey(cs, "helper records the accepted recipient"), c.P.InstrPos(cs), okArg, "recording helper called from "+funcName(cs.Parent())+" with a value that is not Rcpt's recipient")
+				c.obFactMatch("append only after the server accepted", cs, accepted, "recipient recorded although RCPT was not accepted")
+			}
+			continue
+		}
+		R.Ob(c.siteKey(st, "rcpts = append(rcpts, to)"), c.P.InstrPos(st), fn == "(*Client).Rcpt" && d == "builtin:append(Client.rcpts,slice(alloc:varargs))" && describeVarargs(v.(*ssa.Call).Call.Args[1]) == "param1", "rcpts becomes "+d+" in "+fn)
+		c.obFactMatch("append only after the server accepted", st, accepted, "recipient recorded although RCPT was not accepted")
+	}
+	if f := c.A.Func("(*Client).Rcpt"); f != nil {
+		// ... and EVERY accepted RCPT is recorded (the server answers once per accepted RCPT command, repeated addresses included)
+		for _, site := range s.Find(f, "ccmd") {
+			site := site
+			c.obFollowH("every accepted RCPT is recorded", f, func(in ssa.Instruction) bool { return in == site }, []string{"st:Client.rcpts"}, describe(site.(ssa.Value))+"#2 == nil")
+		}
 	}
 }
